@@ -51,6 +51,10 @@ var c22Forms = []c22Form{
 	{"hint_after_shard", "hint", "{select} /*[HINT]*/ c {from} tbl_shard {where} id = 1", "", nil},
 	{"probe_sel", "probe", "{select} @@[VAR]", "", nil},
 	{"probe_sel_global", "probe", "{select} @@{global}.[VAR]", "", nil},
+	// read_only is not the FIRST @@variable of the statement
+	{"probe_sel_second", "probe", "{select} @@hostname, @@[VAR]", "", nil},
+	{"probe_sel_second_global", "probe", "{select} @@version_comment, @@{global}.[VAR]", "", nil},
+	{"probe_sel_alias_third", "probe", "{select} @@session.tx_isolation {as} iso, @@version {as} v, @@{global}.[VAR] {as} ro", "", nil},
 	{"probe_show", "probe", "{show} {variables} {like} '[VAR]'", "", nil},
 	{"probe_show_global", "probe", "{show} {global} {variables} {like} '[VAR]'", "", nil},
 	{"probe_show_where", "probe", "{show} {variables} {where} variable_name = '[VAR]'", "", nil},
@@ -83,7 +87,7 @@ var c22Dims = []struct {
 }{
 	{"lockclause", []string{"for_update", "for_update_nowait", "for_update_skip", "for_share", "for_share_nowait", "for_share_skip", "lock_in_share_mode", "for_update_of", "for_share_of_skip"}},
 	{"lead", []string{"none", "block", "line", "ws"}},
-	{"trail", []string{"none", "block", "block_tight", "line", "hash", "semi"}},
+	{"trail", []string{"none", "block", "block_tight", "line", "hash", "semi", "semi2", "semi3"}},
 	{"sep", []string{"space", "nl", "tab"}},
 	{"case", []string{"lower", "upper", "mixed"}},
 	{"wordcase", []string{"lower", "upper"}}, // hint word / variable name
@@ -112,7 +116,7 @@ func c22Vals(dim string) []string {
 }
 
 var c22LeadText = map[string]string{"none": "", "block": "/* trace */ ", "line": "-- trace\n", "ws": "\n\t "}
-var c22TrailText = map[string]string{"none": "", "block": " /* trace */", "block_tight": "/* trace */", "line": " -- trace", "hash": " # trace", "semi": ";"}
+var c22TrailText = map[string]string{"none": "", "block": " /* trace */", "block_tight": "/* trace */", "line": " -- trace", "hash": " # trace", "semi": ";", "semi2": ";;", "semi3": ";;;"}
 var c22SepText = map[string]string{"space": " ", "nl": "\n", "tab": "\t"}
 
 const c22Control = "select 7"
@@ -334,8 +338,8 @@ func (h *c22Harness) run(c c22Case) c22Result {
 
 func TestVerif_C22(t *testing.T) {
 	rec := kit.Start("C22", "exploration",
-		"case = statement form (3 plain reads, 6 writes, 3 locking-read templates x 9 lock clauses, 4 master-hint placements, 5 read_only probes) x decorations "+
-			"{leading comment/white space (4), trailing comment or ';' (6), token separator (3), keyword case (3), hint-word/variable-name case (2)} x channel {query, piece of a multi-statement, prepare+execute, with parameters} "+
+		"case = statement form (3 plain reads, 6 writes, 3 locking-read templates x 9 lock clauses, 4 master-hint placements, 8 read_only probes (read_only as first or later @@variable)) x decorations "+
+			"{leading comment/white space (4), trailing comment or one/two/three ';' (8), token separator (3), keyword case (3), hint-word/variable-name case (2)} x channel {query, piece of a multi-statement, prepare+execute, with parameters} "+
 			"x check_select_lock {on, off} x user {rw-split, read-write, read-only with/without split} x {no tx, BEGIN, autocommit=0}; thorough enumerates the product for the rw-split user outside transactions and "+
 			"every single-decoration case for the other users / transactions; plus keep-session histories (namespace with set_for_keep_session: fresh session, first statement a plain read or nothing, then every must-master statement in a chain and alone, read-write users with/without split); non-trivial = a master is demanded and the statement produced >=1 backend exec")
 	defer rec.Finish(t)
